@@ -1298,7 +1298,14 @@ impl Sup {
                         } else if nsec == 0x3fff_ffff {
                             f.insert("mt".into(), Value::String("now".into()));
                         } else {
-                            f.insert("mt".into(), json!(sec as i128 * 1_000_000_000 + nsec as i128));
+                            // a timestamp taken from the wall clock during this run (e.g. copied from a file that was
+                            // just created or truncated) is not sandbox data: log it symbolically
+                            let now = std::time::SystemTime::now().duration_since(std::time::UNIX_EPOCH).map(|d| d.as_secs() as i64).unwrap_or(0);
+                            if (sec - now).abs() < 3600 {
+                                f.insert("mt".into(), Value::String("recent".into()));
+                            } else {
+                                f.insert("mt".into(), json!(sec as i128 * 1_000_000_000 + nsec as i128));
+                            }
                         }
                     }
                 }
